@@ -349,6 +349,41 @@ def run_junk(tier, acc):
                     extra = [g for g in got if g not in seq]
                     acc.fail(case, 'counted list: line %r (%s) at line %d: reader yields %r (num_passwords %d) instead of %r' % (jl, jname, pos, got[:6], npw, seq),
                              ('junk-leak:' if extra or len(got) > len(seq) else 'junk-loss:') + 'counted')
+    # a junk line that uniq -c collapsed: '<n> <junk>' must be skipped and counted exactly like the n plain junk lines it stands for
+    # (the number of encoding errors ends up in config.ini, which is part of the ruleset)
+    for seq in bases:
+        for enc in ('utf-8', 'cp1251'):
+            if not all(encodable(p, enc) for p in seq):
+                continue
+            for jname, junk in JUNK:
+                if not (jname in ('undecodable', 'broken_hex', 'odd_hex', 'tab', 'blank') or jname.startswith('hex')):
+                    continue
+                jb = junk.get(enc) if isinstance(junk, dict) else (junk.encode(enc) if isinstance(junk, str) else junk)
+                if jb is None:
+                    continue
+                for n in (1, 3):
+                    for pos in (0, 1, len(seq)):
+                        plain = [p_.encode(enc) for p_ in seq]
+                        plain[pos:pos] = [jb] * n
+                        counted = [b'%7d ' % 1 + p_.encode(enc) for p_ in seq]
+                        counted.insert(pos, b'%7d ' % n + jb)
+                        res = []
+                        acc.evals += 1
+                        acc.nontrivial += 1
+                        data_c = b'\n'.join(counted) + b'\n'
+                        case = {'layer': 'junk', 'base': seq, 'encoding': enc, 'junk': 'counted_%s_x%d' % (jname, n), 'position': pos, 'variant': 'prefixcount twin',
+                                'file_hex': data_c.hex(), 'plain_file_hex': (b'\n'.join(plain) + b'\n').hex()}
+                        try:
+                            for data, pre in ((b'\n'.join(plain) + b'\n', False), (data_c, True)):
+                                with open(path, 'wb') as f:
+                                    f.write(data)
+                                res.append(read_all(TFI, path, enc, pre))
+                        except Exception as e:
+                            acc.fail(case, 'counted junk line %s x%d at line %d (%s) makes the reader raise %r' % (jname, n, pos, enc, e), 'junk-raise:counted')
+                            continue
+                        if res[0] != res[1]:
+                            acc.fail(case, 'junk line %s written %d times gives (passwords, num_passwords, num_encoding_errors) = %r, its count-prefixed form gives %r'
+                                     % (jname, n, res[0], res[1]), 'junk-counters:counted-twin')
     acc.sample({'layer': 'junk', 'kinds': [j[0] for j in JUNK][:12]}, cap=1)
     tree.rmtree(wd)
 
@@ -447,6 +482,12 @@ def replay(case):
     finally:
         pass
     msg = None
+    if 'plain_file_hex' in case:
+        with open(path, 'wb') as f:
+            f.write(bytes.fromhex(case['plain_file_hex']))
+        twin = read_all(TFI, path, case['encoding'], False)
+        tree.rmtree(wd)
+        return None if twin == (got, npw, nerr) else 'plain file reads as %r, count-prefixed twin as %r' % (twin, (got, npw, nerr))
     if got != case['base']:
         msg = 'file is read as %r instead of %r' % (got, case['base'])
     elif case['layer'] == 'ruleset':
